@@ -53,6 +53,28 @@ CHECKS["C03"] = dict(
          "to exactly the positions whose UID is in the set's denotation. Tied to the code by comparing every body fetch of "
          "generated histories (packing forced at 4 messages) with the model and by a binding oracle over the real files.",
     note=MBOX_NOTE, ref="6/C03")
+CHECKS["C04"] = dict(
+    technique="Coq refinement + invariant proofs (STORE = reference set operations; Seen/unseen complement in every reachable world) over generated flag maps; differential correspondence; flag oracle and probes",
+    text="Theorems: for every flag list and message STORE +/-/= is union/difference/replacement-keeping-Recent of the "
+         "reference model; STORE cannot set or clear \\Recent; \\Seen and the MH marker `unseen` are exact complements on "
+         "every message of every reachable world; flags<->sequence names is a bijection outside the reserved spellings and "
+         "equals the maps generated from constants.py. Every FETCH/STORE response and notification of generated histories is "
+         "compared with the model; end-of-history probes compare FETCH FLAGS with SEARCH by every flag.",
+    note=MBOX_NOTE + " Keyword comparison is exact-spelling.", ref="6/C04")
+CHECKS["C05"] = dict(
+    technique="Coq proofs of exactness (expunge = filter, add = append of one message per source) and read-only sessions; differential correspondence; before/after snapshot oracle",
+    text="Theorems: EXPUNGE/CLOSE/UID EXPUNGE/MOVE remove exactly the selected messages and nothing else changes; APPEND/COPY/"
+         "MOVE/delivery add exactly one message per source in order with the same content, date and flags plus \\Recent and "
+         "UIDs from UIDNEXT; no step ever loses another message; commands of an EXAMINE session change no message or flag. "
+         "Tied by step-by-step comparison and by an exactness oracle over white-box snapshots around every command.",
+    note=MBOX_NOTE, ref="6/C05")
+CHECKS["C13"] = dict(
+    technique="Coq proofs about the resync of the world model (deliveries appended, sessions told in order, Seen iff not unseen) + correspondence with an external MH agent + .mh_sequences oracle",
+    text="Theorems: messages delivered by an MH agent are appended in MH-number order with UIDs >= the old UIDNEXT and \\Recent, "
+         "existing messages untouched, every selected session is told in FIFO order; \\Seen iff not in `unseen` on every "
+         "message of every reachable world; removal is exact. The .mh_sequences clause is decided on the implementation: the "
+         "file is read as an MH tool would after every command and compared with what the IMAP sessions see.",
+    note=MBOX_NOTE + " The textual content of .mh_sequences is not in the model (oracle on the real file).", category="proof", ref="6/C13")
 NOT_YET = {}
 
 props = [json.loads(l) for l in (V / "properties.jsonl").read_text().splitlines() if l.strip()]
